@@ -951,3 +951,36 @@ def rule_st_fields(ctx, R):
             R.finding("storage::stream::StreamEntry", "entry-payload:%s:keyed-by-field-name" % name,
                       "a stream entry holds its field-value pairs in `%s`: a repeated field name overwrites the earlier pair and the order of the pairs is lost (XADD s 1-0 f 1 f 2 g 3; XRANGE s - + answers two pairs in arbitrary order)" % ty, anchor.loc())
     R.floor("entry_payload_fields", n)
+
+
+# ---- R-RDB-STREAM-STATE ---------------------------------------------------------------------------
+def rule_rdb_stream_state(ctx, R):
+    """a stream's identity is more than its present entries: its last ID (the high-water mark
+    XADD compares with) survives deletions and trimming, and a stream emptied by XDEL still
+    exists.  Every dump-writer function that reads a stream's entries for the file also reads its
+    last ID (`Stream::last_id`, the `last_id` field or the last-id atomics); a writer that
+    dumps the entries alone cannot restore either."""
+    n = 0
+    for fn, b in sorted(ctx.prog.bodies.items()):
+        if not fn.startswith("storage::rdb::") or "::tests::" in fn or b.kind == "Closure":
+            continue
+        reads = [(body, i) for body, i, t in shared.deep_calls(ctx, b) if re.search(r"^storage::stream::Stream::(range|range_after|get_all|entries|iter)", callee(t) or "")]
+        if not reads:
+            continue
+        n += 1
+        has = False
+        for body, i, t in shared.deep_calls(ctx, b):
+            if re.search(r"^storage::stream::Stream::(last_id|get_last_id|last_generated_id)$", callee(t) or ""):
+                has = True
+        for body in shared.closure_tree(ctx, b):
+            for bb in body.bbs:
+                for st in bb["s"]:
+                    if st["k"] == "=" and st["r"]["k"] in ("use", "ref"):
+                        pl = st["r"].get("p") if st["r"]["k"] == "ref" else (op_place(st["r"]["o"]) if not op_is_const(st["r"]["o"]) else None)
+                        if pl and any(isinstance(e, dict) and re.search(r"storage::stream::(Stream|StreamData)\.last_id", str(e.get("f", ""))) for e in pl["p"]):
+                            has = True
+        R.inst(fn, "stream-state", {"writer": fn, "reads_entries_at": reads[0][0].loc(reads[0][1]), "reads_last_id": has})
+        if not has:
+            R.finding(fn, "stream-state:last-id-not-written",
+                      "%s writes a stream's present entries only: after SAVE + restart the stream has forgotten its last ID (XADD 5-0, 9-0; XDEL 9-0; restart; XADD 7-0 is accepted) and a stream emptied by XDEL no longer exists" % fn.split("::")[-1], reads[0][0].loc(reads[0][1]))
+    R.floor("dump_writers_reading_streams", n)
